@@ -505,7 +505,8 @@ def build(extents, t):
         if len(ext) == 1:
             row = []
             for _ in range(ext[0]):
-                row.append(unique(t, counter[0]))
+                # (string arrays: every third element is empty, right behind a non-empty one)
+                row.append(b'' if t == '$' and counter[0] % 3 == 1 else unique(t, counter[0]))
                 counter[0] += 1
             return row
         return [rec(ext[1:]) for _ in range(ext[0])]
@@ -613,6 +614,11 @@ def check_array(part, case):
     if not ok or again != got:
         part.violation(cls + '/changed-later', 'get_variable(%s()) gave %r, after evaluating its elements %r' % (
             name, got, again), list(case))
+    # ... and after string space has been collected
+    ok, _f = _guard(part, cls, list(case), s.evaluate, b'FRE("")')
+    ok, again = _guard(part, cls, list(case), s.get_variable, name + '()')
+    if not ok or again != got:
+        part.violation(cls + '/changed-by-collection', 'get_variable(%s()) gave %r, after FRE("") %r' % (name, got, again), list(case))
     part.classes.add(cls)
 
 
